@@ -49,12 +49,18 @@ type Config struct {
 	GlobalIgnore bool `json:"global_ignore,omitempty"`
 	// APat selects route A's pattern: 0 "/a", 1 "/f/*{p}/m" (infix catch-all with a suffix), 2 "/a/{p}"
 	APat int `json:"a_pattern,omitempty"`
+	// UpdateVia selects how the update is made: 0 Router.Update; 1 Txn.Update inside Router.Updates; 2 the same
+	// followed by a full Txn.Iter before the function returns; 3 followed by Txn.Snapshot; 4 an unmanaged write
+	// transaction (Txn.Update, Commit)
+	UpdateVia int `json:"update_via,omitempty"`
 }
+
+var updateVias = []string{"Router.Update", "Updates{Txn.Update}", "Updates{Txn.Update; Txn.Iter}", "Updates{Txn.Update; Txn.Snapshot}", "Txn.Update + Commit"}
 
 var aPatterns = []struct{ pat, req string }{{"/a", "/a"}, {"/f/*{p}/m", "/f/x/y/m"}, {"/a/{p}", "/a/v"}}
 
 func (c Config) String() string {
-	return fmt.Sprintf("routeA=%s globals(masks)=%v default=%v@%d routeA-mws=%d update=%d redirect-per-route=%v router-wide-ignore=%v", aPatterns[c.APat].pat, c.Globals, c.Default, c.DefPos, c.RouteMws, c.Update, c.RouteRedirect, c.GlobalIgnore)
+	return fmt.Sprintf("routeA=%s globals(masks)=%v default=%v@%d routeA-mws=%d update=%d (%s) redirect-per-route=%v router-wide-ignore=%v", aPatterns[c.APat].pat, c.Globals, c.Default, c.DefPos, c.RouteMws, c.Update, updateVias[c.UpdateVia], c.RouteRedirect, c.GlobalIgnore)
 }
 
 func expected(cfg Config, kind int, routeIDs []string, h string) string {
@@ -141,7 +147,29 @@ func evalConfig(cfg Config) (class, msg string) {
 		if cfg.RouteRedirect {
 			uOpts = append(uOpts, fox.WithRedirectTrailingSlash(true))
 		}
-		rtA, err = f.Update("GET", patA, handler("HA2"), uOpts...)
+		switch cfg.UpdateVia {
+		case 0:
+			rtA, err = f.Update("GET", patA, handler("HA2"), uOpts...)
+		case 1, 2, 3:
+			err = f.Updates(func(txn *fox.Txn) error {
+				var e error
+				if rtA, e = txn.Update("GET", patA, handler("HA2"), uOpts...); e != nil {
+					return e
+				}
+				switch cfg.UpdateVia {
+				case 2:
+					for range txn.Iter().All() {
+					}
+				case 3:
+					txn.Snapshot().Has("GET", patA)
+				}
+				return nil
+			})
+		case 4:
+			txn := f.Txn(true)
+			rtA, err = txn.Update("GET", patA, handler("HA2"), uOpts...)
+			txn.Commit()
+		}
 		if err != nil {
 			return "error", err.Error()
 		}
@@ -237,6 +265,15 @@ func configs(quick bool) []Config {
 		if c.RouteRedirect && len(c.Globals) <= 2 {
 			c.GlobalIgnore = true
 			out = append(out, c)
+		}
+	}
+	// the update made through transactions
+	for _, c := range out[:len(out):len(out)] {
+		if c.Update >= 0 && len(c.Globals) <= 1 && !c.Default && !c.GlobalIgnore {
+			for v := 1; v < len(updateVias); v++ {
+				c.UpdateVia = v
+				out = append(out, c)
+			}
 		}
 	}
 	// route A on other pattern shapes (cached sub-nodes of infix catch-alls, parameters)
